@@ -212,6 +212,14 @@ class Module(object):
                 self._flatten(st.orelse)
             elif isinstance(st, ast.If) and version_test_value(st.test, self._flag_env) is True:
                 self._flatten(st.body)
+            elif isinstance(st, ast.Try) and any(h.type is not None and "NameError" in dump(h.type) for h in st.handlers) and \
+                    any(isinstance(x, ast.Name) and x.id in ("basestring", "unicode", "long", "xrange", "unichr", "raw_input")
+                        for b in st.body for x in ast.walk(b)):
+                # python 3 target: a Python 2 builtin named in the try side raises NameError, the handler's bindings are the live ones
+                for h in st.handlers:
+                    if h.type is not None and "NameError" in dump(h.type):
+                        self._flatten(h.body)
+                self._flatten(st.finalbody)
             elif isinstance(st, ast.Try):
                 # python 3 target: stdlib imports of the try side succeed
                 self._flatten(st.body)
